@@ -9,7 +9,10 @@ import Pko.Model.RenderSpec
           the Go harness prints the real `ObjectSetTemplateSpec`.
 `monitor` checks the IMPLEMENTATION's line against the specification `Pko.Model.RenderSpec.spec`
           facet by facet (determinism, failure status, conservation, placement, phase order,
-          object order, annotations, labels). -/
+          object order, annotations, labels).  One clause, `vanished`, is stated without the
+          validator at all: with validation on, a successful render contains EVERY object that
+          survived the path and CEL filters — an object whose phase annotation is not (exactly) the
+          name of a manifest phase can only end in a validation error, never silently disappear. -/
 namespace Pko.Drv.C13
 open Lean Pko.Model.Render
 
@@ -169,6 +172,9 @@ def idsOf (ps : List OPhase) : List Int := (ps.map fun p => p.objs.map fun o => 
 
 def showInts (l : List Int) : String := ",".intercalate (l.map toString)
 
+/-- multiset difference `a − b` -/
+def msub (a b : List Int) : List Int := b.foldl List.erase a
+
 /-- `none` = the output satisfies the property w.r.t. the expected (specified) output. -/
 def check (want got : Out) : Option String :=
   match want, got with
@@ -177,7 +183,7 @@ def check (want got : Out) : Option String :=
   | .ok _, .err k => some s!"status want=ok got=err-{k}"
   | .ok w, .ok g =>
     if sortInts (idsOf w) != sortInts (idsOf g) then
-      some s!"conservation objects-lost-or-duplicated want={showInts (sortInts (idsOf w))} got={showInts (sortInts (idsOf g))}"
+      some s!"conservation objects-lost-or-duplicated lost={showInts (sortInts (msub (idsOf w) (idsOf g)))} extra={showInts (sortInts (msub (idsOf g) (idsOf w)))} want={showInts (sortInts (idsOf w))} got={showInts (sortInts (idsOf g))}"
     else if (w.map fun p => p.name) != (g.map fun p => p.name) then
       some s!"phase-order want={",".intercalate (w.map fun p => p.name)} got={",".intercalate (g.map fun p => p.name)}"
     else if (w.map fun p => sortInts (p.objs.map fun o => o.id)) != (g.map fun p => sortInts (p.objs.map fun o => o.id)) then
@@ -193,15 +199,55 @@ def check (want got : Out) : Option String :=
 /-- expected output according to the specification -/
 def specOut (s : Scn) : Out := toOut s.name s.inst (Pko.Model.RenderSpec.spec (toPkg s))
 
+/-- where the objects that survive the path and CEL filters come from: `id@path[phase annotation]` -/
+def whereabouts (pkg : Pkg) (ids : List Int) : String :=
+  let tbl := (Pko.Model.RenderSpec.filtered pkg).flatMap fun e => e.2.map fun o => (o.id, e.1, phaseOf o)
+  ",".intercalate (ids.map fun i =>
+    match tbl.find? (fun t => t.1 == i) with
+    | some t => s!"{i}@{esc (String.ofList t.2.1)}[{esc t.2.2}]"
+    | none => s!"{i}@?")
+
+/-- The clause "a validated object never silently disappears", stated WITHOUT the validator.
+
+Premises: validation is on; every stage other than validation succeeds on this package (so the set of
+objects that pass the path and CEL filters, `survivors`, is defined); the implementation reports
+success.  Conclusion: every survivor is in the output, as often as it survived — whatever its phase
+annotation says.  The collector can only place an object whose annotation is EXACTLY the name of a
+manifest phase, so for an object whose annotation names none (unknown name, padded with white space,
+empty, missing) the only outcome compatible with this clause is a validation error. -/
+def vanished (s : Scn) (got : Out) : Option String :=
+  match got with
+  | .err _ => none
+  | .ok g =>
+    let pkg := toPkg s
+    if !pkg.validate then none
+    else match Pko.Model.RenderSpec.mustFail { pkg with validate := false } with
+      | some _ => none      -- has to fail in another stage: reported by the status clause of `check`
+      | none =>
+        let lost := msub ((Pko.Model.RenderSpec.survivors pkg).map fun o => o.id) (idsOf g)
+        if lost.isEmpty then none
+        else some s!"conservation validated-objects-vanished lost={whereabouts pkg (sortInts lost)} phases={",".intercalate (pkg.phases.map esc)}"
+
+/-- additional detail for a conservation failure: which file every lost object came from -/
+def lostDetail (s : Scn) (got : Out) : String :=
+  match specOut s, got with
+  | .ok w, .ok g =>
+    let lost := msub (idsOf w) (idsOf g)
+    if lost.isEmpty then "" else s!" lost-from={whereabouts (toPkg s) (sortInts lost)}"
+  | _, _ => ""
+
 def monitor (s : Scn) (out : String) : String :=
   if out.startsWith "nondet" then "bad nondet repeated-renders-differ " ++ (out.take 300).toString
   else if out.startsWith "PANIC" then "bad panic " ++ (out.take 200).toString
   else match parseOut out with
     | none => "bad parse " ++ (out.take 200).toString
     | some got =>
-      match check (specOut s) got with
-      | none => "ok"
+      match vanished s got with
       | some why => "bad " ++ why
+      | none =>
+        match check (specOut s) got with
+        | none => "ok"
+        | some why => "bad " ++ why ++ lostDetail s got
 
 end Pko.Drv.C13
 
